@@ -179,6 +179,8 @@ class Prop(PropBase):
             "transactron.lib.adapters.AdapterTrans", "TransactionManager + scheduler", "amaranth pysim"]
     stubs = ["cycle driver (trigger / data / request stimulus)", "shift-register reference model of the trigger history"]
     search_space = "all 16 component x trigger configurations, trigger/data histories and request patterns"
+    assumptions = ["`synchronize=True` means exactly one register stage in front of the edge / level detection; the trigger "
+                   "history before reset is 0"]
     state_measure = "(raw trigger now, -1, -2, requested, executed) per configuration"
 
     def gen_config(self, rng, tier, idx):
